@@ -113,3 +113,38 @@ def user_computer_class():
 
 
 _KEEP = []
+
+
+import math
+
+from pydrobert.speech.scales import ScalingFunction
+from pydrobert.speech.filters import WindowFunction
+
+
+class SqrtScaling(ScalingFunction):
+    """A user's scaling function, written against the documented interface (one frequency in, one scale value out; the
+    `math` module, so it takes numbers, not arrays): s = sqrt(f + 100).  Alias "vfsqrt"."""
+
+    aliases = {"vfsqrt"}
+
+    def hertz_to_scale(self, hertz):
+        return math.sqrt(hertz + 100.0)
+
+    def scale_to_hertz(self, scale):
+        return scale * scale - 100.0
+
+
+class WelchWindow(WindowFunction):
+    """A user's window, written against the documented interface: the Welch (parabolic) window, scaled to unit sum.
+    Alias "vfwelch"."""
+
+    aliases = {"vfwelch"}
+
+    def get_impulse_response(self, width):
+        if width <= 0:
+            return np.zeros(0)
+        if width == 1:
+            return np.ones(1)
+        h = (width - 1) / 2
+        w = 1.0 - ((np.arange(width) - h) / (h + 0.5)) ** 2
+        return w / w.sum()
